@@ -140,10 +140,36 @@ CSwitchByOwnerOnly(pre, e) ==
         /\ (~p.psw /\ q.psw) => \E j \in 1..Len(e.txs) : e.txs[j].type = 9 /\ e.txs[j].from = p.k
         /\ ((p.sw # q.sw \/ p.swto # q.swto) /\ q.sw # "no") => \E j \in 1..Len(e.txs) : e.txs[j].type \in {18, 19} /\ e.txs[j].from = p.k
 
+\* an included transaction did to the identities it names what its type stands for (a termination terminates, an invitation
+\* is used up by its activation, a switch request is on record until an identity-update block applies it ...)
+CNamedEffect(pre, e) ==
+    \A j \in 1..Len(e.txs) :
+        LET t == e.txs[j]
+            upd == HasFlag(e.flags, IdentityUpdateFlag)
+            HasF == HasMember(pre, t.from)
+            HasT == t.to # "" /\ HasMember(pre, t.to)
+            F0 == MemberOf(pre, t.from)  F1 == MemberOf(e.life, t.from)
+            T0 == MemberOf(pre, t.to)    T1 == MemberOf(e.life, t.to) IN
+        CASE t.type = 3  -> HasF => ~Alive(F1.status)
+          [] t.type \in {10, 20} -> HasT => ~Alive(T1.status)
+          [] t.type = 1  -> (HasT => T1.status = 2) /\ ((HasF /\ t.from # t.to) => ~Alive(F1.status))
+          [] t.type = 2  -> HasT => (T1.status = 1 /\ T1.inviter = t.from)
+          [] t.type = 9  -> (HasF /\ ~upd) => (IF F0.pend THEN ~F1.pend /\ F1.psw = F0.psw ELSE F1.psw # F0.psw)
+          [] t.type \in {18, 19} -> (HasF /\ ~upd) => (F1.sw = (IF t.type = 18 THEN "to" ELSE "empty") /\ (t.type = 18 => F1.swto = t.to))
+          [] t.type = 22 -> HasT => (T1.stake /\ T1.repl)
+          [] t.type = 4  -> HasF => F1.nfl = F0.nfl + 1
+          [] t.type = 14 -> HasF => F1.nfl = F0.nfl - 1
+          [] OTHER -> TRUE
+
 \* the outcome a validation assigned is the status the ledger shows (a terminated identity reads Undefined)
 CEpochOutcomeApplied(e) ==
     ("lstep" \in DOMAIN e /\ e.lstep.kind = "epoch" /\ HasFlag(e.flags, ValidationFinishedFlag) /\ Alive(prev.cast.x.status)) =>
         LET want == NumOf(e.lstep.out) IN e.life.cast.x.status = (IF want = 5 THEN 0 ELSE want)
+
+\* the identity-update block that applies an offline penalty turns the penalised identity offline
+CPenaltyTurnsOffline(pre, e) ==
+    \A m \in Members(pre) :
+        (pre.cast[m].pend /\ ~e.life.cast[m].pend /\ e.life.cast[m].pens /\ ~pre.cast[m].pens) => ~e.life.cast[m].on
 
 Clauses(pre, e) ==
     If(CValidatedIffStatus(e.life), "ValidatedIffStatus")
@@ -156,6 +182,8 @@ Clauses(pre, e) ==
     \cup If(CRegistryOnlyInIdentityUpdate(pre, e), "RegistryOnlyInIdentityUpdate")
     \cup If(CSwitchByOwnerOnly(pre, e), "SwitchByOwnerOnly")
     \cup If(CEpochOutcomeApplied(e), "EpochOutcomeApplied")
+    \cup If(CNamedEffect(pre, e), "NamedEffect")
+    \cup If(CPenaltyTurnsOffline(pre, e), "PenaltyTurnsOffline")
 
 (* ---------------------------------------------------------------------------------------------------------- *)
 (* (b) drift                                                                                                   *)
